@@ -163,11 +163,11 @@ theorem write_roundtrip (S2F : List Char → Except PyErr Nat) (v : Variant) (hv
   obtain ⟨hlen, val, hdec, hpk, _⟩ := valueBytes_roundtrip S2F t x vb hvb
   rw [← hfmt] at hvb hdec
   obtain ⟨⟨i1, i2, i3, i4, i5, i6, i7, i8⟩, hdown, hinit, hupd, hbn, hbi, hrw, hty, hidr, hdev, hdty, hdrw⟩ := hr
-  rcases s with ⟨⟨toc, useV2, updV2, ini, isU, vals, q, cur, lk, pat, pend, ncb, gcb, acb⟩, dev, down⟩
+  rcases s with ⟨⟨toc, useV2, updV2, ini, isU, vals, q, cur, lk, pat, pend, ncb, gcb, acb, ncl, gcl⟩, dev, down⟩
   simp only at i1 i2 i3 i4 i5 i6 i7 i8 hdown hinit hupd hbn hbi hidr hdev
   subst i1 i2 i3 i4 i5 i7 i8 hdown hinit hupd
   simp only
-  let h0 : Host := ⟨toc, dev.v2, dev.v2, true, true, vals, [], none, false, none, [], ncb, gcb, acb⟩
+  let h0 : Host := ⟨toc, dev.v2, dev.v2, true, true, vals, [], none, false, none, [], ncb, gcb, acb, ncl, gcl⟩
   let p : Pkt := { chan := 2, data := leBytes (idWidth dev.v2) e.ident ++ vb }
   -- 1. the call queues the packet
   have h1 : setValue S2F h0 [e.group, e.name] x false = (enqueue h0 p, [.enq p none]) := by
@@ -175,7 +175,7 @@ theorem write_roundtrip (S2F : List Char → Except PyErr Nat) (v : Variant) (hv
       rw [setValuePkt_elem S2F h0 _ e x (elemByName_of hbn hbi) hrw hidr, hvb]
     simp only [setValue, gate, h0, if_true, hp]
   -- 2.-3. the updater takes it and transmits; the device stores the value and answers
-  let hA : Host := ⟨toc, dev.v2, dev.v2, true, true, vals, [], none, true, some (lockPatternOf dev.v2 p), [], ncb, gcb, acb⟩
+  let hA : Host := ⟨toc, dev.v2, dev.v2, true, true, vals, [], none, true, some (lockPatternOf dev.v2 p), [], ncb, gcb, acb, ncl, gcl⟩
   have hdevh := Dev.write_ok dev e.ident dp t vb hidr hdev hdty hdrw hlen
   -- 4. the reply releases the lock and updates the cache
   have hlp : lockPatternOf dev.v2 p = relPattern dev.v2 p := by
@@ -183,7 +183,7 @@ theorem write_roundtrip (S2F : List Char → Except PyErr Nat) (v : Variant) (hv
     simp only [lockPatternOf, relPattern, l1, l2, l3, l5, l6, gen_write_channel.2.2.1, show ¬ (p.chan = 3) from (by show ¬ ((2 : Nat) = 3); decide), if_false]
   have hpu : paramUpdated hA p = .ok ({ hA with values := (e.group, e.name, val) :: vals }, fanout hA e.group e.name val) :=
     paramUpdated_write hA e vb val hidr hbi hdec rfl
-  let hB : Host := ⟨toc, dev.v2, dev.v2, true, true, (e.group, e.name, val) :: vals, [], none, false, none, [], ncb, gcb, acb⟩
+  let hB : Host := ⟨toc, dev.v2, dev.v2, true, true, (e.group, e.name, val) :: vals, [], none, false, none, [], ncb, gcb, acb, ncl, gcl⟩
   have hfo : fanout hA e.group e.name val = fanout h0 e.group e.name val := rfl
   have hrx : rx v hA p = (hB, .rxd p :: (fanout h0 e.group e.name val ++ [.released p] ++ [])) := by
     have hur : updaterRx hA p = (hB, fanout h0 e.group e.name val ++ [.released p], p) := by
@@ -207,7 +207,7 @@ theorem write_roundtrip (S2F : List Char → Except PyErr Nat) (v : Variant) (hv
     have hg : updGet (enqueue h0 p) = some { h0 with cur := some p, queue := [] } := rfl
     have hsnd : updSend { h0 with cur := some p, queue := [] } = some (hA, [.tx p]) := rfl
     simp only [Sys.run, Sys.step, Api.run]
-    rw [show setValue S2F ⟨toc, dev.v2, dev.v2, true, true, vals, [], none, false, none, [], ncb, gcb, acb⟩ [e.group, e.name] x false
+    rw [show setValue S2F ⟨toc, dev.v2, dev.v2, true, true, vals, [], none, false, none, [], ncb, gcb, acb, ncl, gcl⟩ [e.group, e.name] x false
       = (enqueue h0 p, [.enq p none]) from h1]
     simp only [hg, Option.map_some, hsnd, List.nil_append]
     rw [show dev.handle p = (dev.setValue e.ident vb, [p]) from hdevh]
